@@ -3,7 +3,7 @@ from . import COMMON_TB, NOTE
 PROP = {
     "modules": ["Proofs.C17"],
     "streams": [{"name": "numf"}, {"name": "filter"}, {"name": "conv", "shards": 8}],
-    # the json/inspect/type cases of the filter stream report a panic as C01 and a dependence on map insertion order as C02
+    # the json/inspect/type and date cases of the filter stream report a panic as C01 and a dependence on map insertion order as C02
     "also": ["C01", "C02"],
     "rule": "numf: every pair from {-12..12, +-2^53, +-(2^53-1), 10^15, k/4 (k=-12..12), \"3\", \"2.5\", \"-1\", \" 1\", \"x\", \"\", nil, true} "
             "x every numeric filter (exhaustive), every integer kind of divisor/zero, whole results around fmt's exponent "
@@ -15,7 +15,18 @@ PROP = {
             "need escaping, typed values; map types json.Marshal rejects; ordered maps, keyed maps, structs, ranges, drops, "
             "pointers, times around the year 0 / 9999 limits) and on random value trees with random strings and floats, each with an oracle on the real result "
             "(the text parses back with encoding/json to the logical value of the receiver; identical for 4 insertion orders of "
-            "every map); conv: values.Convert to the 7 parameter "
+            "every map); date / time printing / ParseDate: every conversion character (a-z A-Z + %) on a universe of 239 instants (epoch, "
+            "negative instants, leap days, century and 400-year rules, year boundaries, 1999-12-31 23:59:59, 2038, the years -1 / 0 / 1 / "
+            "9999 / 10000, midnight and noon, every weekday and month, ISO-week corner years, |u| up to 2^62), conversion x flag "
+            "(none - _ 0 ^ # : :: :::) x width (none 1 3 6 12) x modifier (none E) on five instants, a fixed family of 232 format "
+            "strings (regexp corner cases, widths around the model bound 1024 and fmt's NOVERB bound) and of receivers (nil, 91 strings: "
+            "the five all-digit layouts with fields in and out of range, near misses, the other layouts; 1014 strings on how a value can "
+            "begin: weekday and month names in any case, two-digit day, four-digit year, and their near misses; every value of the universe), "
+            "random formats x random instants, random all-digit strings, {{ t }} / fmt.Sprint / Convert to string of times alone and "
+            "inside containers, Convert of strings to time, each with an oracle on the real result (%Y-%m-%d %H:%M:%S, {{ t }} and "
+            "fmt.Sprint parse back with time.Parse to the instant; %s is the unix time; %j %m %d %H %M %S %u %w %V %U %W %I in range; the "
+            "default format equals time.Format; an all-digit string denotes the instant time.Date computes or is a TypeError); "
+            "conv: values.Convert to the 7 parameter "
             "types, fmt.Sprint and {{ x }} on the universe, random value trees and random float64/float32 bit patterns; a case "
             "is non-trivial when the real code returns a value (not a TypeError); distinct by case line",
     "trusted_base": COMMON_TB + [
@@ -33,7 +44,16 @@ PROP = {
         "compact, map, uniq return nil slices; the value universe does not distinguish them), inspect of a value json.Marshal rejects (%#v); "
         "type of structs, drops and nil pointers (Go type names that are not part of the value)",
         "outside the model (counted as unmodelled, not compared): results Go signs as -0, overflow to +-Inf, NaN (round with |places| > 308), "
-        "float->int conversions outside int64, ParseFloat's inf/nan/hex/underscore spellings, pointers and time.Time in fmt",
+        "float->int conversions outside int64, ParseFloat's inf/nan/hex/underscore spellings, pointers in fmt",
+        "Liquid/Time.lean, Liquid/Filters/Date.lean and the time cases of Sprint.lean / Convert.lean describe time.Time values in UTC with "
+        "whole seconds (the harness realises a time binding as time.Unix(u, 0).UTC()): the proleptic Gregorian calendar of package time "
+        "(Go 1.23), time.Format for the layouts of writeObject and String(), tuesday.Strftime v1.0.3 (regexp, conversions, flags, widths, "
+        "fmt's %d padding) and values.ParseDate on the five all-digit layouts, with time.Local = UTC: the harness sets time.Local = time.UTC "
+        "at start-up and check runs it under TZ=UTC; checked by the filter stream on every run (and by robust, render, determ on whole templates)",
+        "date / times outside the model (counted as unmodelled): a string receiver that is neither one of the five all-digit layouts nor "
+        "rejected by every layout at its first field (the other 20 layouts of ParseDate, and `now`, which reads the clock), instants beyond "
+        "+-2^62 seconds (Go's int64/uint64 arithmetic wraps near the ends of the range), strftime widths above 1024 (from 10 000 010 on fmt "
+        "prints %!(NOVERB)), fmt.Sprint of a time below an unexported struct field (a drop inside a container: printed as the struct {wall ext loc})",
     ],
 }
 
@@ -61,7 +81,21 @@ TEXT = {
             "not is a TypeError or, with too many arguments, the arity FilterError (non_numeric_err); a non-numeric string operand "
             "of plus/minus/times/modulo with a float receiver is a TypeError (non_numeric_operand_err), while ANY non-number divisor "
             "of divided_by - also the string \"3\" - is the FilterError 'invalid divisor' (divided_by_non_number); a whole float "
-            "below 10^21, whenever {{ x }} prints it, is printed as plain digits (whole_prints_int, whole_prints_no_point). An "
+            "below 10^21, whenever {{ x }} prints it, is printed as plain digits (whole_prints_int, whole_prints_no_point). Times "
+            "(Proofs.DateFilter; a time binding is time.Unix(u, 0).UTC(), the statements are about that model): day number -> civil date "
+            "-> day number is the identity on all integers and civil date -> day number -> civil date on every valid proleptic Gregorian "
+            "date (cal_days_civil_days, cal_civil_days_civil); month, day, hour, minute, second, weekday, day of the year and ISO week "
+            "of every instant are in range and date and clock determine the instant (cal_civil_ranges, cal_instant_fields, "
+            "cal_yearday_isoweek_range); x | date never panics for any receiver and arguments, nor do {{ t }}, fmt.Sprint(t) and the "
+            "conversions between times and strings (date_filter_noPanic, time_values_noPanic), and the model of Strftime returns a text "
+            "or the unmodelled marker, never an error (strftime_ok_or_unmodelled); for an instant within +-2^62 s and a string format, "
+            "t | date: f is Strftime(f, t) (date_filter_eq) and t | date is t | date: '%a, %b %d, %y' (date_default_format); for an "
+            "instant in the years 0..9999 '%Y-%m-%d' prints dddd-dd-dd whose digits spell year, month and day and which ParseDate reads as "
+            "the midnight of that day (strftime_ymd_shape), '%Y-%m-%d %H:%M:%S' prints 19 bytes that ParseDate reads back as the instant "
+            "(strftime_dateTime_parse) and that {{ t }} prints before ' +0000' (writeObject_time_eq_strftime); a ten-byte string that "
+            "ParseDate accepts is printed back unchanged by '%Y-%m-%d' (parse_then_strftime_ymd); '%j' is the day of the year, 1..366 "
+            "(strftime_yday); '%s' is fmt's %02d of the unix time, equal to its decimal text outside 0..9 and read back by ParseInt "
+            "(strftime_unix); '%%' is '%' (strftime_percent). An "
             "independent big.Rat oracle checks exactness, required errors and plain printing on the real code for all universe pairs "
             "and random pipelines wherever operands, intermediates and result are exactly float64 (round: 0 <= p <= 22 only; no "
             "expectation otherwise); the model is compared with the real code on every case.",
